@@ -3,7 +3,6 @@ package main
 import (
 	"fmt"
 	"math/rand"
-	"os"
 	"strings"
 )
 
@@ -229,7 +228,7 @@ const c02Rule = "conflict-free random CFGs turned into an annotated SOURCE gramm
 
 func c02(c *Ctx) {
 	c.Rule = c02Rule
-	nG := c.N(80, 600)
+	nG := c.N(80, 400)
 	batchSize := 40
 	cfg := GramCfg{MaxNT: 4, MaxNN: 4, MaxRules: 3, MaxRHS: 4, MultiInput: true, PEmpty: 0.25}
 	for done := 0; done < nG; done += batchSize {
@@ -283,9 +282,6 @@ func c02(c *Ctx) {
 			}
 			if o.FixWhitespace && feats["marker behind a nullable tail"] {
 				c.Count("grammar with fixWhitespace and a marker behind a nullable tail")
-			}
-			if feats["template"] && os.Getenv("C02_DEBUG") == "2" {
-				fmt.Fprintf(os.Stderr, "NULLTAIL\n%s\n", gp.TM)
 			}
 			b.Add(gp)
 			items = append(items, item{sg, gp})
@@ -371,9 +367,6 @@ func c02(c *Ctx) {
 			exp, consumed, verdict := or.Expect(in)
 			c.Count("oracle: " + verdict)
 			if verdict != "unique" {
-				if verdict == "ambiguous" && os.Getenv("C02_DEBUG") != "" {
-					fmt.Fprintf(os.Stderr, "AMBIGUOUS %q input %d status %s\n%s\n", text, m.input, out, gp.TM)
-				}
 				continue
 			}
 			where := fmt.Sprintf("input %q through %s of grammar:\n%s", text, m.it.sg.names.SymName(in.Sym), gp.TM)
